@@ -236,6 +236,36 @@ def tensor_case(run, specs, env, R, t, kind):
     return ok
 
 
+def setter_motion_case(run, rng, R, t):
+    """a basis whose shells share per-atom coordinate arrays (as make_contractions builds it) is moved shell by shell through the
+    `coord` setter; it must then behave exactly like the basis built afresh at the moved centres"""
+    from gbasis.contractions import GeneralizedContractionShell as GCS
+    from gbasis.evals.eval import evaluate_basis
+    from gbasis.integrals.overlap import overlap_integral
+    from gbasis.integrals.point_charge import point_charge_integral
+    atoms = [np.array([core.snap(rng.uniform(-1.5, 1.5), 8) for _ in range(3)]) for _ in range(2)]
+    shells = [(0, [1.3, 0.4], [[0.7], [0.5]]), (1, [0.9], [[1.0]]), (2, [0.7], [[1.0]])]
+    moved_atoms = [R @ a + t for a in atoms]
+    basis = [GCS(l, a, np.array(c), np.array(e), "spherical") for a in atoms for (l, e, c) in shells]       # shared coord arrays per atom
+    for sh in basis:
+        sh.coord = R @ sh.coord + t
+    fresh = [GCS(l, a.copy(), np.array(c), np.array(e), "spherical") for a in moved_atoms for (l, e, c) in shells]
+    pts = np.array([R @ np.array([0.3, -0.2, 0.5]) + t, R @ np.array([1.0, 1.0, -1.0]) + t])
+    run.case(("setter-motion", round(float(R[0, 0]), 6), round(float(t[0]), 6)))
+    run.count("motion through the coord setter")
+    ok = True
+    for name, f in (("overlap_integral", overlap_integral), ("evaluate_basis", lambda b: evaluate_basis(b, pts)),
+                    ("point_charge_integral", lambda b: point_charge_integral(b, pts[:1], np.array([1.0])))):
+        x, y = f(basis), f(fresh)
+        if x.shape != y.shape or np.abs(x - y).max() > 1e-12 * max(1.0, float(np.abs(y).max())):
+            run.violation(f"{name}: a basis moved through the shells' `coord` setter differs from the basis built at the moved centres "
+                          f"(max deviation {np.abs(x - y).max():.3e})",
+                          {"case": "setter-motion", "function": name, "R": R.tolist(), "t": list(map(float, t)),
+                           "signature": {"kind": "rigid-motion-setter"}})
+            ok = False
+    return ok
+
+
 def angmom_shift_case(run, specs, d):
     b1 = make_basis(specs)
     b2 = make_basis([s.copy(center=list(np.array(s.center) + d)) for s in specs])
@@ -275,6 +305,7 @@ def check(run):
             tensor_case(run, specs, env, cayley(rng), np.array([core.snap(rng.uniform(-2, 2), 8) for _ in range(3)]), "orthogonal+translation")
         tensor_case(run, specs, env, rng.choice(sp), np.zeros(3), "signed-permutation")
         angmom_shift_case(run, specs, np.array([0.5, -1.25, 2.0]))
+        setter_motion_case(run, rng, cayley(rng), np.array([core.snap(rng.uniform(-2, 2), 8) for _ in range(3)]))
     # repulsion integrals: angular momenta fixed so that every axis branch of the electron-transfer and horizontal recursions is
     # exercised (p and d shells on both electrons), centres in general position
     for k, ls in enumerate([(1, 1)] if quick else [(1, 1), (1, 2), (2, 1), (0, 2), (2, 2)]):
@@ -288,7 +319,9 @@ def check(run):
 def replay(run, rep):
     n0 = len(run.violations)
     specs = specs_from(rep)
-    if rep["case"] == "angmom_shift":
+    if rep["case"] == "setter-motion":
+        setter_motion_case(run, run.rng, np.array(rep["R"]), np.array(rep["t"]))
+    elif rep["case"] == "angmom_shift":
         angmom_shift_case(run, specs, np.array(rep["d"]))
     elif rep["case"] == "tensor":
         e = rep["env"]
